@@ -47,31 +47,7 @@ ASSUMPTIONS = [
 KINDS = ["err", "err-after", "err-mid"]
 
 
-def workload(rng, k):
-    """a workspace with 1..3 targets with disjoint outputs; contents and sub-directories are shared between targets so
-    that Cas.Write meets digests that already exist (memo hit / Exists=true / skipped upload)"""
-    shared = S.gen_tree(rng, 2, 3)
-    ws = D(("p", D()))
-    targets = []
-    nt = rng.choice([1, 2, 2, 3])
-    for t in range(nt):
-        outs = []
-        for o in range(rng.choice([1, 1, 2])):
-            if rng.random() < 0.65:
-                oid = "out%d_%d" % (t, o)
-                tree = S.gen_tree(rng, rng.choice([1, 2, 3]), rng.choice([2, 3, 4]))
-                if rng.random() < 0.6:
-                    tree = S.put(tree, ["shared"], shared)
-                if rng.random() < 0.5:
-                    tree = S.put(tree, ["dup.txt"], F("same"))
-                ws = S.put(ws, ["p", oid], tree)
-                outs.append(["dir", oid])
-            else:
-                oid = "f%d_%d.bin" % (t, o)
-                ws = S.put(ws, ["p", oid], F(rng.choice(["same", S.gen_content(rng)]), rng.random() < 0.4))
-                outs.append(["file", oid])
-        targets.append({"pkg": "p", "name": "t%d" % t, "key": "key%d_%d" % (k, t), "outputs": outs})
-    return ws, targets
+workload = S.workload
 
 
 def fixed_workloads():
